@@ -46,3 +46,52 @@ Proof.
   fold (read_raw_unsigned (write_raw s v)). rewrite read_unsigned_write by assumption. reflexivity.
 Qed.
 
+
+(* ------------------------------------------------------------------ frame lemmas for splice *)
+
+Lemma splice_length off new mem : (off + List.length new <= List.length mem)%nat ->
+  List.length (splice off new mem) = List.length mem.
+Proof.
+  intros H. unfold splice. rewrite !app_length, firstn_length, skipn_length. lia.
+Qed.
+
+Lemma nth_splice_outside off new mem j d : (off + List.length new <= List.length mem)%nat ->
+  (j < off \/ off + List.length new <= j)%nat -> nth j (splice off new mem) d = nth j mem d.
+Proof.
+  intros H Hj. unfold splice. destruct Hj as [Hj|Hj].
+  - rewrite app_nth1 by (rewrite firstn_length; lia).
+    transitivity (nth j (firstn off mem ++ skipn off mem) d); [|rewrite firstn_skipn; reflexivity].
+    rewrite app_nth1 by (rewrite firstn_length; lia). reflexivity.
+  - rewrite app_nth2 by (rewrite firstn_length; lia). rewrite firstn_length.
+    rewrite app_nth2 by lia.
+    transitivity (nth j (firstn (off + List.length new) mem ++ skipn (off + List.length new) mem) d);
+      [|rewrite firstn_skipn; reflexivity].
+    rewrite app_nth2 by (rewrite firstn_length; lia). rewrite firstn_length. f_equal. lia.
+Qed.
+
+Lemma unit_at_splice off new mem : (off + List.length new <= List.length mem)%nat ->
+  unit_at off (List.length new) (splice off new mem) = new.
+Proof.
+  intros H. unfold unit_at, splice.
+  rewrite skipn_app, firstn_length. replace (off - Nat.min off (List.length mem))%nat with 0%nat by lia.
+  rewrite skipn_all2 by (rewrite firstn_length; lia). cbn [app skipn].
+  rewrite firstn_app, Nat.sub_diag, firstn_O, app_nil_r. apply firstn_all.
+Qed.
+
+Lemma skipn_plus (A : Type) a b (l : list A) : skipn (a + b) l = skipn b (skipn a l).
+Proof. revert l; induction a; intros l; [reflexivity|]. destruct l; cbn [skipn plus]; [now rewrite skipn_nil|apply IHa]. Qed.
+
+Lemma splice_same off size mem : (off + size <= List.length mem)%nat ->
+  splice off (unit_at off size mem) mem = mem.
+Proof.
+  intros H. unfold splice, unit_at.
+  assert (List.length (firstn size (skipn off mem)) = size) as L
+    by (rewrite firstn_length, skipn_length; lia).
+  rewrite L. rewrite <- (firstn_skipn off mem) at 4. f_equal.
+  rewrite <- (firstn_skipn size (skipn off mem)) at 2. f_equal.
+  apply skipn_plus.
+Qed.
+
+Lemma unit_at_length off size mem : (off + size <= List.length mem)%nat ->
+  List.length (unit_at off size mem) = size.
+Proof. intros. unfold unit_at. rewrite firstn_length, skipn_length. lia. Qed.
